@@ -21,6 +21,22 @@ KeyOf(nm) ==      \* ":checked" (code points, lower case) -> "checked"
       [] nm = <<58,105,110,45,114,97,110,103,101>> -> "in-range" [] nm = <<58,111,117,116,45,111,102,45,114,97,110,103,101>> -> "out-of-range"
       [] nm = <<58,100,101,102,105,110,101,100>> -> "defined"
 
+\* custom aliases: cm = Seq([name |-> ":--x" (lower case, unescaped), def |-> definition text]); an alias compiles to the list of its
+\* definition (parsed as pseudo-class arguments: no implied universal), exactly like :is(definition).  Cyclic maps are Custom.tla's subject.
+CustomText(cm, nm) == cm[CHOOSE n \in 1..Len(cm) : cm[n].name = nm].def
+RECURSIVE ExpandListC(_, _), ExpandCxC(_, _), ExpandSimpleC(_, _)
+ExpandSimpleC(cm, s) ==
+    CASE s.k = "custom" -> [k |-> "is", args |-> ExpandListC(cm, PS!ParseText(CustomText(cm, s.name)))]
+      [] s.k = "state" -> IF KeyOf(s.name) = "defined" THEN [k |-> "flag", f |-> "defined"]
+                          ELSE [k |-> "htmllist", args |-> ExpandListC(cm, PS!ParseText(DefText(KeyOf(s.name)))), flag |-> DefFlag(KeyOf(s.name))]
+      [] s.k \in {"is", "where", "matches", "not"} -> [s EXCEPT !.args = ExpandListC(cm, @)]
+      [] s.k = "has" -> [s EXCEPT !.args = [n \in 1..Len(s.args) |-> [s.args[n] EXCEPT !.cx = ExpandCxC(cm, @)]]]
+      [] s.k = "nth" -> [s EXCEPT !.of = ExpandListC(cm, @)]
+      [] OTHER -> s
+ExpandCxC(cm, cx) == [cx EXCEPT !.cs = [n \in 1..Len(cx.cs) |-> [m \in 1..Len(cx.cs[n]) |-> ExpandSimpleC(cm, cx.cs[n][m])]]]
+ExpandListC(cm, lst) == [n \in 1..Len(lst) |-> ExpandCxC(cm, lst[n])]
+CompileTextC(text, cm) == Compile(ExpandListC(cm, PS!ParseText(text)))
+
 RECURSIVE ExpandList(_), ExpandCx(_), ExpandSimple(_)
 ExpandSimple(s) ==
     CASE s.k = "state" -> IF KeyOf(s.name) = "defined" THEN [k |-> "flag", f |-> "defined"]
